@@ -40,6 +40,7 @@ def check(rep: Report, ctx: Ctx) -> None:
     r85(rep, ctx)
     r86(rep, ctx)
     r87(rep, ctx)
+    r88(rep, ctx)
 
 
 # --------------------------------------------------------------------------
@@ -811,3 +812,59 @@ def r87(rep: Report, ctx: Ctx) -> None:
              for c in comps for t in c.ifs)
     rep.ob("R8.7", "root = span whose parent_event_id is None", ok, fi=root,
            node=root.node, detail="root detection filter")
+
+
+# --------------------------------------------------------------------------
+def r88(rep: Report, ctx: Ctx) -> None:
+    rep.rule("R8.8", "prior-information grouping: a child whose type is "
+             "mapped joins the group its type maps to, every other child is "
+             "a group of its own", 3)
+    fi = ctx.func("group_events_using_async_information")
+    ev_p, map_p = fi.params()[0], fi.params()[1]
+    loops = [l for l in ast.walk(fi.node) if isinstance(l, ast.For)
+             and isinstance(l.iter, ast.Name) and l.iter.id == ev_p]
+    if len(loops) != 1 or not isinstance(loops[0].target, ast.Name):
+        raise AnalysisError(f"{fi.qualname}: loop over the children not "
+                            "found")
+    loop, v = loops[0], loops[0].target.id
+    ifs = [i for i in loop.body if isinstance(i, ast.If)]
+    ok = len(ifs) == 1 and len(loop.body) == 1 and unparse(ifs[0].test) == \
+        f"{v}.event_type in {map_p}"
+    rep.ob("R8.8", "membership test on the child's own type", ok, fi=fi,
+           node=ifs[0] if ifs else loop,
+           detail=f"if {unparse(ifs[0].test) if ifs else '?'}")
+    if not ifs:
+        return
+    apps = [c for st in ifs[0].body for c in ast.walk(st)
+            if isinstance(c, ast.Call) and call_name(c) in ("append",)]
+    ok = False
+    if len(apps) == 1:
+        recv = apps[0].func.value
+        key = recv.slice if isinstance(recv, ast.Subscript) else None
+        if isinstance(recv, ast.Call) and call_name(recv) == "setdefault":
+            key = recv.args[0]
+        ok = key is not None and unparse(key) == \
+            f"{map_p}[{v}.event_type]" and unparse(apps[0].args[0]) == v
+    rep.ob("R8.8", "mapped child joins the group of its mapped id", ok,
+           fi=fi, node=apps[0] if apps else ifs[0],
+           detail=unparse(apps[0])[:100] if apps else "<missing>")
+    other = [c for st in ifs[0].orelse for c in ast.walk(st)
+             if isinstance(c, ast.Call) and call_name(c) == "append"]
+    ok = len(other) == 1 and isinstance(other[0].args[0], ast.List) and \
+        [unparse(e) for e in other[0].args[0].elts] == [v]
+    rep.ob("R8.8", "unmapped child forms a group of its own", ok, fi=fi,
+           node=other[0] if other else ifs[0],
+           detail=unparse(other[0])[:80] if other else "<missing>")
+    # the map handed in is the parent's own entry
+    anc = ctx.func("sequence_otel_event_ancestors")
+    cs = calls_in(ctx, anc, fi)
+    a = actual(cs[0], fi, map_p) if cs else None
+    defs = ctx.defs(anc)
+    vals = [b.value for b in defs.of(a.id) if b.value is not None] \
+        if isinstance(a, ast.Name) else []
+    ok = any(unparse(x) == "event_to_async_group_map[event.event_type]"
+             for x in vals) and any(isinstance(x, ast.Dict) and not x.keys
+                                    for x in vals) and len(vals) == 2
+    rep.ob("R8.8", "groups come from the parent type's entry (else none)",
+           ok, fi=anc, node=cs[0] if cs else anc.node,
+           detail=f"{unparse(a)} <- {[unparse(x) for x in vals]}")
